@@ -110,7 +110,7 @@ def reference(hist):
                     out.append("ok")
                 continue
             if t[0] == "variant" and len(t) == 2:
-                out.append("ok" if t[1] in ("rolled", "u2") else "bad-op")
+                out.append("ok" if t[1] in ("rolled", "unroll", "u2") else "bad-op")
                 continue
             if t[0] == "xform" and len(t) == 3:
                 st, blk = unhx(t[1]), unhx(t[2])
@@ -356,15 +356,16 @@ def xform_histories(rng, n, variant):
     return hs
 
 
-def u2_histories(rng, quick):
-    """digest histories for the harness compiled with -D_SHA256_UNROLL2 (the model side is the same: both
-    configurations are proved equal, `transform_unroll2_eq`)"""
-    hs = [["variant u2"] + list(VECTORS)]
+def u2_histories(rng, quick, variant="u2"):
+    """digest histories for the harness compiled with -D_SHA256_UNROLL2 / -D_SHA256_UNROLL (the model side is the same: the
+    configurations are proved equal, `transform_unroll2_eq`, `transform_unroll_eq`)"""
+    v = f"variant {variant}"
+    hs = [[v] + list(VECTORS)]
     lens = BOUNDARY if quick else list(range(301))
-    hs += [["variant u2"] + two_way(rng, n) for n in lens]
-    hs += [["variant u2"] + three_way(rng) for _ in range(40 if quick else 4000)]
-    hs += [["variant u2"] + long_msg(rng) for _ in range(4 if quick else 100)]
-    hs += [["variant u2"] + hmac_hist(rng, [0, 1, 63, 64, 65, 131, rng.randrange(201), rng.randrange(201)]) for _ in range(4 if quick else 200)]
+    hs += [[v] + two_way(rng, n) for n in lens]
+    hs += [[v] + three_way(rng) for _ in range(40 if quick else 4000)]
+    hs += [[v] + long_msg(rng) for _ in range(4 if quick else 100)]
+    hs += [[v] + hmac_hist(rng, [0, 1, 63, 64, 65, 131, rng.randrange(201), rng.randrange(201)]) for _ in range(4 if quick else 200)]
     return hs
 
 
@@ -481,6 +482,8 @@ def check(ctx):
     # the second build configuration of the same sources
     harness_u2 = C.build_harness(ctx, "sha_u2", ["sha.cpp", C.REPO / "src/Crypto/Sha256.cpp", C.REPO / "src/Memory.cpp"],
                                  extra_flags=["-D_SHA256_UNROLL2"])
+    harness_u1 = C.build_harness(ctx, "sha_u1", ["sha.cpp", C.REPO / "src/Crypto/Sha256.cpp", C.REPO / "src/Memory.cpp"],
+                                 extra_flags=["-D_SHA256_UNROLL"])
     try:
         hs = histories_for(ctx)
         if not proof_ok:
@@ -525,23 +528,25 @@ def check(ctx):
         ctx.log(f"transform stream (white box): {len(xh)} histories, {len(xd)} disagreement(s)")
         report(ctx, xd, harness, C.driver_path(DRIVER), "sha-transform")
         nu2 = 0
-        if harness_u2 is not None:
-            uh = xform_histories(ctx.rng, 60 if ctx.tier == "quick" else 3000, "u2") + u2_histories(ctx.rng, ctx.tier == "quick")
-            nu2 = len(uh)
+        for hv, variant, flag in ((harness_u2, "u2", "-D_SHA256_UNROLL2"), (harness_u1, "unroll", "-D_SHA256_UNROLL")):
+            if hv is None:
+                continue
+            uh = xform_histories(ctx.rng, 60 if ctx.tier == "quick" else 3000, variant) + u2_histories(ctx.rng, ctx.tier == "quick", variant)
+            nu2 += len(uh)
             for h in uh:
                 for l in h:
                     ops[l.split()[0]] = ops.get(l.split()[0], 0) + 1
-            ud = C.differential(ctx, harness_u2, C.driver_path(DRIVER), uh, reference, C.default_eq, nontrivial=nontrivial)
-            ctx.log(f"-D_SHA256_UNROLL2 build: {len(uh)} histories, {len(ud)} disagreement(s)")
-            report(ctx, ud, harness_u2, C.driver_path(DRIVER), "sha-unroll2")
+            ud = C.differential(ctx, hv, C.driver_path(DRIVER), uh, reference, C.default_eq, nontrivial=nontrivial)
+            ctx.log(f"{flag} build: {len(uh)} histories, {len(ud)} disagreement(s)")
+            report(ctx, ud, hv, C.driver_path(DRIVER), "sha-" + variant)
         ctx.cov["op_histogram"] = ops
         ctx.cov["rule"] += (f"; + white-box stream 'sha-transform' ({len(xh)} histories of 8 single Transform calls on arbitrary chaining values/blocks: "
-                            f"real code vs generated Transform vs pure-Python FIPS compression); + stream 'sha-unroll2' ({nu2} histories run on a second harness "
-                            f"compiled from the same sources with -D_SHA256_UNROLL2: Transform calls against the generated UNROLL2 Transform, digest/hmac histories against model and hashlib)")
+                            f"real code vs generated Transform vs pure-Python FIPS compression); + streams 'sha-u2'/'sha-unroll' ({nu2} histories run on two further harnesses "
+                            f"compiled from the same sources with -D_SHA256_UNROLL2 / -D_SHA256_UNROLL: Transform calls against the generated Transform of that configuration, digest/hmac histories against model and hashlib)")
         ctx.cov["rule"] += (f"; + stream 'sha-null-args' ({len(nh)} histories: empty inputs passed as (nullptr, 0)); + white-box stream 'sha-count-width' "
                             f"({len(ch)} histories: count preset to multiples of 64 up to 2^64-64, real code vs model vs a pure-Python FIPS implementation with preset length, self-tested against hashlib)")
     finally:
-        for hh in (harness, harness_u2):
+        for hh in (harness, harness_u2, harness_u1):
             try:
                 if hh is not None:
                     hh.unlink()
